@@ -139,12 +139,21 @@ def run_once(ctx, kind, data: bytes, fc_spec, dry: bool, tag: str):
 
 
 def c_obs(o):
+    if o is None:
+        return "(None : option xobs)"
     ret = o["ret"]
     cret = copt(None if ret is None else cpair(cstr(ret["diff"]), clist(
         ["{| xc_line := %s; xc_findings := %s |}" % (cN(n), clist([cN(x) for x in fs], "N")) for n, fs in ret["changes"]], "xchange")),
         "str * list xchange")
-    return "(%s : xobs)" % cpair(cret, cstr(o["file"].decode("utf-8", errors="replace")), cbool(o["failed"]),
-                                 clist([cpair(cN(i), cN(n or 0)) for i, n in o["unfixed"]], "N * N"))
+    return "(Some %s : option xobs)" % cpair(cret, cstr(as_code(o["file"])), cbool(o["failed"]),
+                                             clist([cpair(cN(i), cN(n or 0)) for i, n in o["unfixed"]], "N * N"))
+
+
+def as_code(b: bytes) -> str:
+    try:
+        return b.decode("utf-8")
+    except UnicodeDecodeError:
+        return b.decode("latin-1")
 
 
 def c_kind(kind):
@@ -156,36 +165,58 @@ def c_kind(kind):
     return "(KNew %s)" % clist([c_new(n) for n in kind[1]], "new_element")
 
 
-def xml_case(ctx, kind, doc: str, fc_spec, eol="\n"):
+def xml_case(ctx, kind, doc, fc_spec):
+    """doc: str (written as UTF-8) or bytes (a document in another encoding)"""
     from codemodder.diff import create_diff
-    data = doc.encode("utf-8")
+    data = doc.encode("utf-8") if isinstance(doc, str) else doc
+    try:
+        text, reread_ok = data.decode("utf-8"), True
+    except UnicodeDecodeError:
+        text, reread_ok = data.decode("latin-1"), False
     d = ctx.scratch / "proj"
     src = d / "xml_src.xml"
     src.write_bytes(data)
     events = record(src, defused=True)
     real, exc_r = run_once(ctx, kind, data, fc_spec, False, "real")
     dry, exc_d = run_once(ctx, kind, data, fc_spec, True, "dry")
-    meta = {"half": "xml", "kind": kind, "doc": doc, "fc_results": fc_spec, "raised": [exc_r, exc_d],
-            "real": None if real is None else {**real, "file": real["file"].decode("utf-8", errors="replace")},
-            "dry": None if dry is None else {**dry, "file": dry["file"].decode("utf-8", errors="replace")}}
-    if real is None or dry is None:
-        return None, meta, events
+    meta = {"half": "xml", "kind": kind, "doc": text, "data": None if reread_ok else list(data), "reread_ok": reread_ok,
+            "fc_results": fc_spec, "raised": [exc_r, exc_d],
+            "real": None if real is None else {**real, "file": as_code(real["file"])},
+            "dry": None if dry is None else {**dry, "file": as_code(dry["file"])}}
     diffs, reparsed = [], None
-    if real["file"] != data:
-        text = real["file"].decode("utf-8", errors="replace")
-        diffs.append((text, create_diff(doc.splitlines(keepends=True), io.StringIO(text).readlines())))
+    if reread_ok:
+        diffs.append((text, create_diff(text.splitlines(keepends=True), io.StringIO(text).readlines())))
+    if real is not None and real["file"] != data:
+        new = as_code(real["file"])
+        diffs.append((new, create_diff(text.splitlines(keepends=True), io.StringIO(new).readlines())))
         out = d / "xml_out.xml"
         out.write_bytes(real["file"])
         rp = record(out, defused=False)
         reparsed = None if rp is None else [e for _, _, e in rp]
         meta["second_run_parses"] = record(out, defused=True) is not None
-    term = ("{| xk := %s; x_fc := %s; x_orig := %s; x_parse := %s; x_diffs := %s; x_real := %s; x_dry := %s; x_reparsed := %s |}") % (
-        c_kind(kind), c_xresults(fc_spec), cstr(doc),
+    term = ("{| xk := %s; x_fc := %s; x_orig := %s; x_reread_ok := %s; x_parse := %s; x_diffs := %s; x_real := %s; x_dry := %s; "
+            "x_reparsed := %s |}") % (
+        c_kind(kind), c_xresults(fc_spec), cstr(text), cbool(reread_ok),
         copt(None if events is None else clist([c_pevent(pe) for pe in events], "pevent"), "list pevent"),
         clist([cpair(cstr(t), cstr(df)) for t, df in diffs], "str * str"),
         c_obs(real), c_obs(dry),
         copt(None if reparsed is None else clist([c_event(e) for e in reparsed], "event"), "list event"))
     return term, meta, events
+
+
+def other_encoding(rng, doc: str):
+    """the same document in ISO-8859-1 or UTF-16 (bytes that are not UTF-8), or None when it cannot be expressed"""
+    import re as _re
+    body = _re.sub(r"^(﻿)?<\?xml[^>]*\?>\s*", "", doc.lstrip("﻿"))
+    if rng.random() < 0.7:
+        body = body.replace("\U0001F600", "é").replace("中", "é")
+        if "é" not in body:
+            body = body.replace("</root>", "é</root>", 1)
+        try:
+            return ('<?xml version="1.0" encoding="ISO-8859-1"?>\n' + body).encode("latin-1")
+        except UnicodeEncodeError:
+            return None
+    return ('<?xml version="1.0" encoding="UTF-16"?>\n' + body).encode("utf-16")
 
 
 # ------------------------------------------------------------------------------------------------
@@ -353,7 +384,8 @@ def load_corpus():
     f = CORPUS_DIR / "xml.json"
     if f.exists():
         for e in json.loads(f.read_text()):
-            out.append((e["name"], kind_from_json(e["kind"]), e["doc"], fc_from_json(e.get("fc_results", []))))
+            out.append((e["name"], kind_from_json(e["kind"]), bytes(e["bytes"]) if "bytes" in e else e["doc"],
+                        fc_from_json(e.get("fc_results", []))))
     return out
 
 
@@ -392,6 +424,10 @@ def run(ctx: core.Ctx):
         ev = record(p, defused=True)
         kind = gen_kind(rng, ev)
         plan.append((f"gen{i}", kind, doc, gen_fc(rng, ev, kind), feats))
+        if rng.random() < 0.08:
+            enc = other_encoding(rng, doc)
+            if enc is not None:
+                plan.append((f"gen{i}:other-encoding", kind, enc, gen_fc(rng, ev, kind), feats | {"not_utf8"}))
     terms, metas = [], []
     for name, kind, doc, fc, feats in plan:
         term, meta, events = xml_case(ctx, kind, doc, fc)
@@ -399,9 +435,13 @@ def run(ctx: core.Ctx):
         ctx.count("xml_transformer:" + kind[0] + (":results=None" if kind[0] == "attr" and kind[2] is None else ""))
         for ft in sorted(feats):
             ctx.count("xml_feature:" + ft)
-        if term is None:
+        if meta["real"] is None or meta["dry"] is None:
             ctx.count("xml_raised:" + str(meta["raised"]))
-            ctx.violation("kf_xml_apply_raised", f"XMLTransformerPipeline.apply raised {meta['raised']} on {doc!r}", _js(meta))
+            if meta["reread_ok"]:
+                ctx.violation("kf_xml_apply_raised", f"XMLTransformerPipeline.apply raised {meta['raised']} on {doc!r}", _js(meta))
+            terms.append(term)
+            metas.append(meta)
+            ctx.case({"transformer": kind[0], "doc": repr(doc), "raised": meta["raised"]})
             continue
         ctx.count("xml_parse:" + ("ok" if events is not None else "rejected"))
         edited = bool(meta["real"]["ret"])
@@ -412,8 +452,9 @@ def run(ctx: core.Ctx):
             ctx.count("xml_change_description_None")
         if edited and kind[0] == "attr" and kind[4] and meta["real"]["ret"]["descriptions"] != [DESC]:
             ctx.violation("kf_xml_change_metadata", f"change description {meta['real']['ret']['descriptions']} != {DESC!r}", _js(meta))
-        if meta["real"]["failed"] and any(r != "Failed to parse XML file" for _, r in meta["real"]["unfixed_meta"]):
-            ctx.violation("kf_xml_change_metadata", f"failure reason {meta['real']['unfixed_meta']}", _js(meta))
+        want_reason = "Failed to parse XML file" if events is None else "Failed to read XML file as UTF-8"
+        if meta["real"]["failed"] and any(r != want_reason for _, r in meta["real"]["unfixed_meta"]):
+            ctx.violation("kf_xml_change_metadata", f"failure reason {meta['real']['unfixed_meta']} (expected {want_reason!r})", _js(meta))
         other = feats - {"nesting", "text", "corpus"}
         nontrivial = edited and bool(other)
         ctx.case({"transformer": kind[0], "doc": doc, "kind": _js(kind), "returned": meta["real"]["ret"], "written": meta["real"]["file"]},
@@ -422,7 +463,7 @@ def run(ctx: core.Ctx):
         metas.append(meta)
 
     checks = ["xml_model_ok", "xml_content_ok", "xml_content_ok_known", "xml_content_ok_but_cdata", "xml_content_ok_but_doctype",
-              "xml_content_ok_but_comment", "xml_content_ok_but_cr", "xml_changes_ok", "xml_guards_ok"]
+              "xml_content_ok_but_comment", "xml_content_ok_but_cr", "xml_changes_ok", "xml_guards_ok", "xml_isolation_ok"]
     bad = core.eval_bad_indices(ctx, "c19_xml", IMPORTS, "xml_case", terms, checks, chunk=150)
     for i in bad["xml_model_ok"]:
         m = metas[i]
@@ -451,16 +492,13 @@ def run(ctx: core.Ctx):
         ctx.violation("kf_xml_guard_broken", f"dry-run / no-edit / unparsable document did not leave the file alone: doc={m['doc']!r} "
                       f"real={m['real']} dry={m['dry']}", _js(m))
 
-    # fault stream: a document in another encoding (outside the try block of apply: belongs to C10)
-    data = '<?xml version="1.0" encoding="ISO-8859-1"?><root><e/>\xe9</root>'.encode("latin-1")
-    o, exc = run_once(ctx, ("attr", [("e", [("z", "9")])], None, False, True), data, [], False, "fault")
-    ctx.count("xml_fault:latin1:" + (exc or "no-exception"))
-    ctx.case({"fault": "latin-1 encoded document", "raised": exc})
-    if exc:
-        ctx.notes.append(f"XMLTransformerPipeline.apply raises {exc} for a well-formed ISO-8859-1 document with a non-ASCII character "
-                         "(original re-read with .decode('utf-8') outside the try block); file untouched. Reported under C10.")
-        if (ctx.scratch / "proj" / "xml_fault" / "d.xml").read_bytes() != data:
-            ctx.violation("kf_xml_guard_broken", "latin-1 document modified although apply raised", {"half": "xml-fault"})
+    for i in bad["xml_isolation_ok"]:
+        m = metas[i]
+        if m["reread_ok"] and (m["real"] is None or m["dry"] is None):
+            continue  # reported as kf_xml_apply_raised above
+        ctx.violation("kf_xml_reread_no_isolation", f"a well-formed document that is not UTF-8 is not isolated: raised={m['raised']} "
+                      f"(expected: apply returns None, failure recorded, file untouched, findings unfixed at line 0) "
+                      f"bytes={bytes(m['data'] or b'')!r} kind={m['kind']} real={m['real']}", _js(m))
     if ctx.dist.get("xml_output_rejected_by_own_parser"):
         ctx.notes.append("Every rewritten document that had a DOCTYPE is rejected by the pipeline's own defusedxml parser afterwards "
                          "(PUBLIC \"None\" \"None\" is an external reference): a second run fails to parse it.")
@@ -477,7 +515,8 @@ def replay(ctx, body):
     kind = kind_from_json(body["kind"])
     fc = fc_from_json(body.get("fc_results") or [])
     for dry in (False, True):
-        o, exc = run_once(ctx, kind, body["doc"].encode("utf-8"), fc, dry, "replay")
+        data = bytes(body["data"]) if body.get("data") else body["doc"].encode("utf-8")
+        o, exc = run_once(ctx, kind, data, fc, dry, "replay")
         if o:
             o = {**o, "file": o["file"].decode("utf-8", errors="replace")}
         print(f"dry_run={dry}: raised={exc} observed now: {o}")
